@@ -28,7 +28,7 @@ void vm_setup(void) {
 
 void vm_thread_1(void) {
   for (int i = 0; i < NWAITS; i++) {
-    last_wait_begun_raises = raises_done;
+    last_wait_begun_raises = raises_begun;
     waits_begun = i + 1;
     fiber_signal_wait(&sig);
     /* every completed wait needs its own raise (begun before the wait returned), except that several raises may
@@ -53,10 +53,12 @@ void vm_final(void) {
   uint64_t blocked = k_blocked_forever();
   /* the waiter may legitimately remain blocked only if every raise was consumed by (or coalesced before) an earlier wait:
      with NWAITS waits and NRAISE raises: blocked in wait #k (k = waits_done + 1) is legal only if all raises completed
-     before wait #k began were already used up, i.e. raises_done at that time < ... ; sound check: if a raise completed
-     after the last wait began, that wait must have returned */
+     before wait #k began were already used up; sound check: if a raise BEGAN after the last wait began, that wait must have
+     returned.  (The first version compared with the raises COMPLETED, which is too strict: the exchange of a raise - its
+     effect - can precede its completion arbitrarily, e.g. land while the previous wait is still resetting the signal and be
+     coalesced into that wait, and only its ghost 'done' increment falls after the next wait began.) */
   if (blocked) {
     vm_assert(vm_is_parked(1), "C11 signal: a raiser is blocked");
-    vm_assert(raises_done == last_wait_begun_raises, "C11 signal: a raise issued after the waiter began waiting was lost (waiter stranded)");
+    vm_assert(raises_begun == last_wait_begun_raises, "C11 signal: a raise issued after the waiter began waiting was lost (waiter stranded)");
   }
 }
